@@ -15,10 +15,12 @@ Rec == ndJsonDeserialize(IOEnv.TRACE)
 
 C == INSTANCE Contract WITH Decl <- Rec[1]
 
-VARIABLES l, st, viol
-vars == <<l, st, viol>>
+VARIABLES l, st, viol, pcs   \* pcs: cumulative probe-class counters (measured oracle coverage)
+vars == <<l, st, viol, pcs>>
 
 EmptySt == [W |-> <<>>, dead |-> {}, leaked |-> {}, zleak |-> 0]
+ZeroPc == <<0, 0, 0, 0, 0, 0>>
+AddPc(a, b) == [i \in 1..6 |-> a[i] + b[i]]
 
 V(tags, at, what) == C!V(tags, at, what)
 If(c, s) == C!If(c, s)
@@ -38,10 +40,10 @@ ObserveAll(W, ev, keepW, keepA, at) ==
                           \* violation of clone independence
                           rv == IF "w" \in DOMAIN ev /\ o.w # ev.w /\ ~("dst" \in DOMAIN ev /\ o.w = ev.dst)
                                 THEN {[x EXCEPT !.p = @ \o <<"C13">>] : x \in r.v} ELSE r.v
-                      IN Go(i + 1, [W |-> [acc.W EXCEPT ![o.w] = r.w], v |-> acc.v \cup rv])
+                      IN Go(i + 1, [W |-> [acc.W EXCEPT ![o.w] = r.w], v |-> acc.v \cup rv, pc |-> AddPc(acc.pc, r.pc)])
         observed == {ev.obs[i].w : i \in DOMAIN ev.obs}
-    IN LET r == Go(1, [W |-> W, v |-> {}]) IN
-       [W |-> r.W,
+    IN LET r == Go(1, [W |-> W, v |-> {}, pc |-> ZeroPc]) IN
+       [W |-> r.W, pc |-> r.pc,
         v |-> r.v \cup If(observed # DOMAIN W, {V(<<"TOOL">>, at, "set of observed worlds differs from the contract's worlds")})]
 
 ZExpected(W) ==
@@ -54,7 +56,8 @@ Finish(s0, W1, ev, expDrops, exact, keepW, keepA, extraViol, newLeaked, newZleak
     LET ob == ObserveAll(W1, ev, keepW, keepA, at)
         ze == ZExpected(W1)
         zl == s0.zleak + newZleak
-    IN [st |-> [W |-> ob.W, dead |-> s0.dead \cup SeqSet(ev.drops),
+    IN [pc |-> ob.pc,
+        st |-> [W |-> ob.W, dead |-> s0.dead \cup SeqSet(ev.drops),
                 leaked |-> s0.leaked \cup newLeaked, zleak |-> zl],
         v  |-> extraViol \cup ob.v \cup C!DropViol(s0, ev, expDrops, exact, at) \cup C!AnomViol(ev, at)
                \cup If(ev.zl < ze \/ ev.zl > ze + zl,
@@ -289,16 +292,19 @@ Step(s, ev, at) ==
       [] ev.op = "noop"          -> Finish(s, s.W, ev, {}, TRUE, -1, {}, {}, {}, 0, at)
 
 ---------------------------------------------------------------------------
-Init == l = 1 /\ st = EmptySt /\ viol = {}
+Init == l = 1 /\ st = EmptySt /\ viol = {} /\ pcs = ZeroPc
 
 Next == /\ l <= Len(Rec)
-        /\ LET r == Step(st, Rec[l], l) IN st' = r.st /\ viol' = viol \cup r.v
+        /\ LET r == Step(st, Rec[l], l) IN
+           /\ st' = r.st
+           /\ viol' = viol \cup r.v
+           /\ pcs' = IF "pc" \in DOMAIN r THEN AddPc(pcs, r.pc) ELSE pcs
         /\ l' = l + 1
 
 Spec == Init /\ [][Next]_vars
 
 \* Fires once, in the final state: hands the complete list of violations to the driver.
-Report == (l = Len(Rec) + 1) => PrintT(<<"VIOLATIONS", ToJson(viol)>>)
+Report == (l = Len(Rec) + 1) => (PrintT(<<"VIOLATIONS", ToJson(viol)>>) /\ PrintT(<<"PROBECLASSES", pcs>>))
 
 Consumed == IF TLCGet("stats").diameter = Len(Rec) + 1 THEN TRUE
             ELSE PrintT(<<"STOPPED_AT", TLCGet("stats").diameter>>) /\ FALSE
